@@ -9,3 +9,7 @@ import PyIkev2.Props.C13
 #print axioms PyIkev2.Props.C13.c13_waiting_states
 #print axioms PyIkev2.Props.C13.c13_dpd
 #print axioms PyIkev2.Props.C13.c13_lifetime
+#print axioms PyIkev2.Props.C13.runOn_request_stored
+#print axioms PyIkev2.Props.C13.c13_concrete_response_sends_what_it_stores
+#print axioms PyIkev2.Props.C13.c13_concrete_generators_send_what_they_store
+#print axioms PyIkev2.Props.C13.c13_concrete_retransmission_is_the_request_sent
